@@ -80,11 +80,13 @@ def run_one(rec: Rec, spec, steps, family):
     EXCH["ok"] = 0
     EXCH["second_started"] = False
 
-    def viol(key, what, witness):
-        if st.get("two_exchanges"):
+    def viol(key, what, witness, crashed=False):
+        # only a crash after such a trial, or a violation in the very trial in which two exchange moves acted, is
+        # attributed to the known finding; everything else keeps its own key
+        if (crashed and st.get("two_exchanges")) or st.get("two_exchanges_this_trial"):
             rec.count("symptoms_after_two_exchanges_in_plain_composite")
             key = "C03/two-exchange-moves-succeed-in-one-plain-composite-trial"
-            what = "after a plain composite (built with +) performed two exchange moves in one trial: " + what
+            what = "a plain composite (built with +) performed two exchange moves in one trial: " + what
         rec.viol(key, what, witness)
 
     def snap(m):
@@ -93,7 +95,8 @@ def run_one(rec: Rec, spec, steps, family):
     def on_trial(t):
         rec.count("trials")
         rec.evaluations += 1
-        if EXCH["ok"] >= 2:
+        st["two_exchanges_this_trial"] = EXCH["ok"] >= 2 or EXCH["second_started"]
+        if EXCH["ok"] >= 2 or EXCH["second_started"]:
             st["two_exchanges"] = True
         EXCH["ok"] = 0
         EXCH["second_started"] = False
@@ -178,7 +181,7 @@ def run_one(rec: Rec, spec, steps, family):
     except Exception as ex:  # noqa: BLE001
         if EXCH["ok"] >= 2 or EXCH["second_started"]:
             st["two_exchanges"] = True
-        viol(f"C03/run-raised/{classify_exception(ex)}", f"simulation raised {type(ex).__name__}: {ex}"[:300], {**wit0, "traceback": traceback.format_exc()[-700:]})
+        viol(f"C03/run-raised/{classify_exception(ex)}", f"simulation raised {type(ex).__name__}: {ex}"[:300], {**wit0, "traceback": traceback.format_exc()[-700:]}, crashed=True)
 
 
 def run(spec):
